@@ -164,7 +164,43 @@ func shiftLines(msg string, k int) string {
 	})
 }
 
+// c15SelfInclusion: a template that includes itself (through the cache both levels run one
+// parsed program) fails in the inner run, inside a helper block: the outer run reports the
+// line of its own partial tag.
+func c15SelfInclusion(b *core.B) {
+	const self = "a\nb\n<%= cap() { %>\n<%= if (d == 0) { %><%= nope %><% } %>\n<% } %>\nx\n<%= if (d > 0) { %><%= partial(\"self\", {d: d - 1}) %><% } %>\n"
+	for _, cache := range []bool{false, true} {
+		for k := 0; k < 3; k++ {
+			text := strings.Repeat("t\n", k) + self
+			if !b.Begin(fmt.Sprintf("self-including template, cache=%v, shift %d", cache, k)) {
+				continue
+			}
+			b.NonTrivialStr("self-inclusion", fmt.Sprint(cache, k))
+			b.Count("self-including-template")
+			var res R
+			func() {
+				plush.CacheEnabled = cache
+				defer func() { plush.CacheEnabled = false }()
+				ctx := c15Ctx()
+				ctx.Set("d", 1)
+				ctx.Set("partialFeeder", func(string) (string, error) { return text, nil })
+				res = render(b, text, ctx)
+			}()
+			if res.Pan != nil {
+				continue
+			}
+			want := fmt.Sprintf("line %d:", 7+k)
+			if res.Err == nil || !strings.HasPrefix(res.Err.Error(), want) {
+				b.Violate(fmt.Sprintf("wrong-line|self-including-template|cache=%v", cache), fmt.Sprintf("the partial tag is on line %d; got %v", 7+k, res.Err))
+			}
+		}
+	}
+}
+
 func c15Run(b *core.B) {
+	if b.Batch == 0 {
+		c15SelfInclusion(b)
+	}
 	r := b.Rng(1)
 	n := 12000
 	if b.Tier == core.Thorough {
